@@ -1,4 +1,7 @@
 import Driver.Core
+import RrModel.Go.UrlEscape
+import RrModel.Spec.C02
+import RrModel.Target
 import RrModel.Spec.Sys
 import RrModel.Spec.C20
 import RrModel.Generated.Facts
@@ -179,6 +182,18 @@ def hSysU : Handler := fun impl => do
       let bad :=
         (if holdsC01 rs retryHostsOf q o.view o.contacts then [] else ["bad:C01:wrong-destination-or-missing-404"]) ++
         (if holdsC03Body req o.contacts then [] else ["bad:C03:method-or-body-not-intact"]) ++
+        -- C02 at system level: the selected destination is asked for the rule's destination with the wildcard text
+        -- substituted, as the client sent it, and the query verbatim (request-target seen by the destination)
+        (match res.proxy with
+         | some (i, t) =>
+           let h := (rs[i]?.map (hostOfDest ·.dest)).getD []
+           let expected : Option Bytes :=
+             if Spec.C02.inClassA _rawQuery ∨ ¬ targetEscapesOk t then none
+             else (outgoingURL t _rawQuery []).bind fun u => UrlEsc.requestURI { u with rawQuery := sentRawQuery u }
+           match expected, o.contacts.find? (fun c => c.host == h) with
+           | some e, some c => if c.path == e then [] else ["bad:C02:destination-not-asked-for-the-rule-destination-with-the-capture"]
+           | _, _ => []
+         | none => []) ++
         (let allRules : List Rule := rcs.flatMap fun rc => rc.rule :: rc.retry
          let ruleOfHost (h : Bytes) : Option Bool := (allRules.find? fun r => hostOfDest r.dest == h).map (·.internal)
          if holdsC04 ruleOfHost secretsNil secrets (headerValues req.headers b!"Richie-Routing-Secret") o.contacts then [] else ["bad:C04:internal-headers-wrong-for-destination-class"]) ++
